@@ -64,6 +64,93 @@ var ioFmts = []ioFmt{
 	}, false},
 }
 
+// c14Alive: HISTORIES of encodings - the bytes an encoder returned stay what they were while further tensors are encoded
+// and decoded (an encoder that hands out a buffer it keeps using would rewrite them): encode A, encode B (same type and
+// shape, other values), encode C (another shape), decode the three in every order, and decode A again after the source
+// tensors were overwritten.
+func c14Alive(r *core.Run) {
+	r.SetBound("encoding_histories", "every format x {float64, int32, string, bool} x shapes {(3),(2,3)}: encode A, B (same shape), C (other shape); decode in orders ABC, CBA, BAC; A once more after overwriting the sources")
+	for _, f := range ioFmts {
+		for _, d := range []ref.DT{ref.Float64, ref.Int32, ref.String, ref.Bool} {
+			for _, shape := range [][]int{{3}, {2, 3}} {
+				if !r.Take() {
+					continue
+				}
+				f, d, shape := f, d, shape
+				if f.name == "csv" && len(shape) != 2 {
+					continue
+				}
+				id := fmt.Sprintf(propPfx+"C14|alive|%s|%s|%s", f.name, d.Name, shapeStr(shape))
+				if r.ReplayCase != "" && id != r.ReplayCase {
+					continue
+				}
+				r.Case(id, true, func() *core.Fail {
+					if !ioSupported(f, d) {
+						return nil
+					}
+					tensor.VerifResetPools()
+					n := ref.Prod(shape)
+					mkv := func(off, n int) []interface{} {
+						v := make([]interface{}, n)
+						for i := range v {
+							v[i] = d.Code(i + off)
+						}
+						return v
+					}
+					oshape := []int{n + 1}
+					if f.name == "csv" {
+						oshape = []int{1, n + 1}
+					}
+					vals := [][]interface{}{mkv(1, n), mkv(1+n, n), mkv(2, n+1)}
+					shapes := [][]int{shape, shape, oshape}
+					srcs := make([]*tensor.Dense, 3)
+					enc := make([][]byte, 3)
+					for i := range srcs {
+						srcs[i] = mkContig(d, shapes[i], vals[i])
+						var p []byte
+						if o := call(func() (e error) { p, e = f.enc(srcs[i]); return }); o.Class != "ok" {
+							return nil // refusals are judged by the round-trip cases
+						}
+						enc[i] = p
+						r.Op(1)
+					}
+					dec := func(i int, when string) *core.Fail {
+						var t2 *tensor.Dense
+						if o := call(func() (e error) { t2, e = f.dec(enc[i], d); return }); o.Class != "ok" {
+							if d.Class == ref.CBool && (f.name == "csv") {
+								return nil
+							}
+							return core.F("unreadable", "alive", "%s: the %s encoding (#%d of 3 kept alive) no longer decodes %s: %s", f.name, d.Name, i, when, o)
+						}
+						r.Op(1)
+						got, err := atlas.Logical(t2)
+						if err != nil || len(got) != len(vals[i]) {
+							return core.F("unreadable", "alive", "%s: encoding #%d decoded %s cannot be read: %v", f.name, i, when, err)
+						}
+						for k := range got {
+							if !ref.Same(got[k], vals[i][k]) {
+								return core.F("wrong-value", fmt.Sprintf("alive%d", i), "%s %s: encoding #%d of three kept alive decodes %s to %s, it was made from %s", f.name, d.Name, i, when, ref.FmtEls(got), ref.FmtEls(vals[i]))
+							}
+						}
+						return nil
+					}
+					for _, order := range [][]int{{0, 1, 2}, {2, 1, 0}, {1, 0, 2}} {
+						for _, i := range order {
+							if fl := dec(i, fmt.Sprintf("in order %v", order)); fl != nil {
+								return fl
+							}
+						}
+					}
+					for i := range srcs {
+						call(func() error { return srcs[i].Memset(d.Code(9)) })
+					}
+					return dec(0, "after the source tensors were overwritten")
+				})
+			}
+		}
+	}
+}
+
 func c14Vals(d ref.DT, n int, vs string) []interface{} {
 	v := make([]interface{}, n)
 	e := edgeVals(d)
@@ -117,6 +204,7 @@ func runC14(r *core.Run) {
 			}
 		}
 	}
+	c14Alive(r)
 }
 
 var ioSupport = map[string]bool{}
@@ -137,24 +225,13 @@ func ioSupported(f ioFmt, d ref.DT) bool {
 	t := mkContig(d, pshape, vals)
 	ok := false
 	o := call(func() error {
-		p, e := f.enc(t)
-		if e != nil {
-			return e
-		}
-		t2, e := f.dec(p, d)
-		if e != nil {
-			return e
-		}
-		got, e := atlas.Logical(t2)
-		if e != nil {
-			return e
-		}
-		ok = t2.Dtype() == d.D && len(got) == 3 && ref.Same(got[0], vals[0]) && ref.Same(got[2], vals[2])
-		return nil
+		_, e := f.enc(t)
+		return e
 	})
-	// unsupported = the format REFUSES the element type on the plainest input (encode or decode reports an error or
-	// panics). A pair that encodes and decodes without complaint is supported - if it then delivers other data, that is
-	// exactly what the property forbids, and the cases below report it
+	// unsupported = the format REFUSES TO WRITE the element type on the plainest input (encode reports an error or
+	// panics). A type that is written is supported: if the bytes then cannot be decoded, or decode to other data or another
+	// element type, that is exactly what the property forbids ("never written as different data or as a tensor that cannot
+	// be read back"), and the cases below report it
 	_ = ok
 	ioSupport[k] = o.Class == "ok"
 	return ioSupport[k]
@@ -201,6 +278,10 @@ func c14Case(r *core.Run, f ioFmt, d ref.DT, shape []int, lay, vs string, mbits 
 		r.Op(1)
 		if atlas.Fingerprint(t) != fp {
 			return core.F("operand-changed", "enc", "%s encoding changed the tensor", f.name)
+		}
+		if o.Class == "panic" {
+			// a refusal is an error value: a panic half way through writing is not one
+			return core.F("encode-panic"+c14Tag(f.name, d, shape, lay, t, "encode-panic"), "enc", "%s: encoding %s %v layout %s mask %d panics: %s", f.name, d.Name, shape, lay, mbits, o)
 		}
 		if o.Class != "ok" {
 			r.Outcome(f.name + ":encode-refused")
@@ -317,6 +398,19 @@ func c14Tag(fmtName string, d ref.DT, shape []int, lay string, t *tensor.Dense, 
 				}
 			}
 		}
+	}
+	// precondition of F-C14-csv-types-not-read-back: WriteCSV prints every element type with %v, ReadCSV (convFromStrs)
+	// parses only the integer, float and string types
+	if fmtName == "csv" && kind == "unreadable" {
+		switch d.Name {
+		case "bool", "complex64", "complex128", "uintptr", "unsafe.Pointer":
+			return "[KF:csv-types-not-read-back]"
+		}
+	}
+	// precondition of F-C14-npy-int64-reads-as-int: on a 64-bit platform the descriptors i8/u8 are read back as the
+	// platform-sized Int/Uint
+	if fmtName == "npy" && kind == "wrong-dtype" && (d.Name == "int64" || d.Name == "uint64") {
+		return "[KF:npy-int64-reads-as-int]"
 	}
 	return ""
 }
